@@ -144,12 +144,15 @@ def _impl_range_free(inp):
         sr = step
         step = 1.0 / sr
         stop = start + n * step
-    fn = {"range": lambda: arrays.create_range_dim("x", start, stop, step=step),
-          "time": lambda: arrays.create_time_range(start, stop, step=step),
-          "frequency": lambda: arrays.create_frequency_range(start, stop, step),
-          "size": lambda: arrays.create_range_dim("x", start, stop, size=n),
-          "samplerate": lambda: arrays.create_time_range(start, stop, samplerate=sr)}[inp["kind"]]
+    kw = {"dtype": np.float32} if inp.get("f32") else {}
+    fn = {"range": lambda: arrays.create_range_dim("x", start, stop, step=step, **kw),
+          "time": lambda: arrays.create_time_range(start, stop, step=step, **kw),
+          "frequency": lambda: arrays.create_frequency_range(start, stop, step, **kw),
+          "size": lambda: arrays.create_range_dim("x", start, stop, size=n, **kw),
+          "samplerate": lambda: arrays.create_time_range(start, stop, samplerate=sr, **kw)}[inp["kind"]]
     v = fn()
+    if kw and np.asarray(v.data).dtype != np.float32:
+        return {"raise": "crash:dtype-not-honoured"}
     # the library call the trailing-point rule has to cope with, and the threshold as the code computes it
     lib = [float(c) for c in np.arange(start=start, stop=stop, step=step, dtype=np.float64)]
     return {"val": {"coords": [float(c) for c in np.asarray(v.data)], "step": v.attrs.get("step"), "stop": stop,
@@ -176,6 +179,17 @@ def _holds_range_free(ctx, inp, out):
     # numpy's contract (hypothesis of C16_count_robust), exactly, on what np.arange returned
     lib = [Fraction(c) for c in r["arange"]]
     delta, thr = qd / 5, Fraction(r["thr"])
+    if inp.get("f32"):
+        # float32 coordinates (from start 0, where numpy fills with i * float32(step)): the count, the step
+        # attribute (the requested binary64 step, not its float32 rounding) and the lattice up to float32 rounding
+        if len(cs) != n:
+            return f"{len(cs)} float32 coordinates for (stop - start)/step = {n}"
+        if r["step"] is None or float(r["step"]) != step:
+            return "step attribute differs from the requested step (float32 coordinates)"
+        for i, c in enumerate(cs):
+            if not (start <= c < r["stop"]) or abs(Fraction(c) - (qs + i * qd)) > (Fraction(abs(c)) + 1) / 2 ** 20:
+                return f"float32 coordinate {i} = {c!r} outside [start, stop) or off the lattice"
+        return None
     ok = _arange_contract(qs, qd, delta, thr, n, lib)
     ctx.contract("numpy-arange-within-quarter-step", ok, inp, {"arange_len": len(lib), "n": n},
                  "np.arange returned neither n nor n+1 points, or a point / the threshold a quarter step off")
@@ -546,6 +560,12 @@ def _range_random_cases(rng, n):
             sr = rng.choice([1, 2, 4, 8, 256, 1024, Fraction(1, 2), Fraction(1, 4), Fraction(1, 8)])
             stop = s0 + min(cnt, 64) / Fraction(sr)
             case = {"kind": "time", "start": rat(s0), "stop": rat(stop), "samplerate": rat(sr)}
+        # both ways of giving the step at once (the step wins), agreeing or not
+        if rng.random() < 0.08 and "step" in case:
+            if kind == "time":
+                case["samplerate"] = rat(rng.choice([1 / st, Fraction(rng.choice([1, 2, 4, 8])), Fraction(1, 2)]))
+            elif kind == "range":
+                case["size"] = rng.choice([1, 2, 3, 8, max(cnt, 1)])
         # the same request with ints / numpy scalars (where that is the same number), float32 coordinates
         ty = rng.choice(["float", "float", "int", "npint", "np64", "np32"])
         nums = [f(case.get(k)) for k in ("start", "stop", "step", "samplerate")]
@@ -573,6 +593,9 @@ def _range_random_cases(rng, n):
     yield {"kind": "range", "start": "1", "stop": "0", "step": "-1/4"}
     yield {"kind": "range", "start": "0", "stop": "0", "step": "1/2"}
     yield {"kind": "range", "start": "0", "stop": "1", "step": "1/4", "size": 2}
+    yield {"kind": "time", "start": "0", "stop": "1", "step": "1/4", "samplerate": "2"}
+    yield {"kind": "time", "start": "0", "stop": "1", "step": "1/4", "samplerate": "4"}
+    yield {"kind": "time", "start": "0", "stop": "1", "step": "1/2", "samplerate": "0"}
 
 
 FREE_STEPS = [0.1, 0.01, 1 / 3, 1 / 44100, 0.004, 1e-3, 1 / 22050, 0.05, 1 / 48000, 0.3]
@@ -603,6 +626,12 @@ def _range_free_cases(ctx):
         for s0 in (0.0, 0.5, 1.3):
             for n in (1, 2, 5, 100, 441, rng.randint(1, 1500)):
                 yield {"kind": "samplerate", "start": rat(s0), "step": rat(sr), "n": n}
+    # dtype=float32 with steps that are no float32 numbers (from zero: numpy fills with i * float32(step))
+    for st in FREE_STEPS:
+        for n in (1, 2, 7, 100, rng.randint(1, 1000)):
+            yield {"kind": rng.choice(["range", "time", "frequency", "size"]), "start": "0", "step": rat(st), "n": n, "f32": True}
+    for sr in (44100.0, 22050.0, 3.0, 0.3):
+        yield {"kind": "samplerate", "start": "0", "step": rat(sr), "n": rng.randint(1, 1000), "f32": True}
 
 
 def _axes_pool(rng, n_random):
